@@ -6,18 +6,6 @@ From Trie Require Import Nibbles Node Encode Model Spec.
 From C02 Require Import Model.
 From Coq Require Import Arith.
 
-(* finding clear-limit-zero: limit 0 and no key has the prefix (Go reports allDeleted = false) *)
-Definition guard_limit_zero (m : bmap) (p : list byte) (limit : N) : bool :=
-  (limit =? 0)%N && forallb (fun e => negb (bytes_prefix p (fst e))) m.
-
-(* finding clear-limit-order: 0 < limit < number of matching keys and the (limit+1)-th matching
-   key extends one of the first [limit] (Go removes a key that is a prefix of other matching keys
-   after them) *)
-Definition guard_limit_order (m : bmap) (p : list byte) (limit : N) : bool :=
-  let M := bm_keys_with_prefix m p in
-  let l := N.to_nat limit in
-  (0 <? l) && (l <? length M) && existsb (fun k => bytes_prefix k (nth l M [])) (firstn l M).
-
 (* 0 = no guard; otherwise the number of the finding class the operation lies in *)
 Definition guard_of (m : bmap) (t : trie) (o : op) : nat :=
   match o with
